@@ -363,7 +363,9 @@ pub fn run(ctx: &Ctx) -> Outcome {
                 let mut events: Vec<(i64, i32)> = vec![];
                 for (k, t) in trs.iter().enumerate() {
                     let tt = t.unix_leap_time();
-                    if tt < 0 || tt > hi || ((k + fi) % mk_every != 0 && k + 1 != trs.len()) {
+                    // the first transition (from the implicit type 0, usually local mean time) and the last one always take part
+                    let pinned = (k == 0 && tt > cal::days_from_civil(1800, 1, 2) * 86400) || k + 1 == trs.len();
+                    if tt > hi || (!pinned && (tt < 0 || (k + fi) % mk_every != 0)) {
                         continue;
                     }
                     let off_before = if k == 0 { zr.local_time_types()[0].ut_offset() } else { zr.local_time_types()[trs[k - 1].local_time_type_index()].ut_offset() };
